@@ -8,7 +8,7 @@ Open Scope N_scope.
 (* ---- induction over schemas (lists of sub-schemas inside) ---------------------------------- *)
 Section SchemaInd.
   Context (P : schema -> Prop).
-  Context (HInt : forall c, P (SInt c)) (HNum : P SNum) (HStr : forall lo hi, P (SStr lo hi))
+  Context (HInt : forall c, P (SInt c)) (HNum : P SNum) (HNumC : forall c, P (SNumC c)) (HStr : forall lo hi, P (SStr lo hi))
           (HBool : P SBool) (HNullT : P SNullT) (HAnyT : P SAnyT) (HEnum : forall vs, P (SEnum vs))
           (HNullable : forall s, P s -> P (SNullable s))
           (HArr : forall s lo hi, P s -> P (SArr s lo hi))
@@ -20,6 +20,7 @@ Section SchemaInd.
     match s with
     | SInt c => HInt c
     | SNum => HNum
+    | SNumC c => HNumC c
     | SStr lo hi => HStr lo hi
     | SBool => HBool
     | SNullT => HNullT
@@ -172,12 +173,15 @@ Section Accept.
   Theorem accept_valid : forall s p v,
     supported s = true -> valid s v = true -> accepts (gen o fc rq p s) v = true.
   Proof.
-    induction s as [c| |lo hi| | | |vs|s IH|s lo hi IH|s IH|alts IH|props closed IH] using schema_ind';
+    induction s as [c| |c2|lo hi| | | |vs|s IH|s lo hi IH|s IH|alts IH|props closed IH] using schema_ind';
       intros p v HS HV; cbn [gen valid accepts supported] in *; auto.
     - destruct (cnormalize c) as [c'|] eqn:E; [|discriminate].
       destruct v; try discriminate.
       destruct (drops_bounds fc p); [reflexivity|].
       rewrite E. cbn [accepts]. rewrite (constraints_preserved c c' z E HS). exact HV.
+    - destruct (cnormalize c2) as [c'|] eqn:E; [|discriminate].
+      destruct (drops_bounds fc p); [destruct v; try discriminate; reflexivity|].
+      rewrite E. destruct v; try discriminate; cbn [accepts]; rewrite (constraints_preserved_h c2 c' _ E); exact HV.
     - destruct v; try discriminate. destruct (drops_bounds fc p); [reflexivity|exact HV].
     - apply orb_true_iff in HV as [HV|HV]; [rewrite HV; reflexivity|].
       rewrite (IH p v HS HV). apply orb_true_r.
@@ -265,13 +269,18 @@ Section Reject.
   Theorem reject_invalid : forall s p v,
     supported s = true -> strict fc p s = true -> accepts (gen o fc rq p s) v = true -> valid_relaxed s v = true.
   Proof.
-    induction s as [c| |lo hi| | | |vs|s IH|s lo hi IH|s IH|alts IH|props closed IH] using schema_ind';
+    induction s as [c| |c2|lo hi| | | |vs|s IH|s lo hi IH|s IH|alts IH|props closed IH] using schema_ind';
       intros p v HS HT HA; cbn [gen valid_relaxed accepts supported strict] in *; auto.
     - assert (Hc : (if drops_bounds fc p then c_none else c) = c).
       { destruct (drops_bounds fc p); [|reflexivity]. cbn [negb orb] in HT. symmetry. apply c_is_none_eq. exact HT. }
       rewrite Hc in HA.
       destruct (cnormalize c) as [c'|] eqn:E; [|discriminate].
       destruct v; try discriminate. cbn [accepts] in HA. rewrite <- (constraints_preserved c c' z E HS). exact HA.
+    - assert (Hc : (if drops_bounds fc p then c_none else c2) = c2).
+      { destruct (drops_bounds fc p); [|reflexivity]. cbn [negb orb] in HT. symmetry. apply c_is_none_eq. exact HT. }
+      rewrite Hc in HA.
+      destruct (cnormalize c2) as [c'|] eqn:E; [|discriminate].
+      destruct v; try discriminate; cbn [accepts] in HA; rewrite <- (constraints_preserved_h c2 c' _ E); exact HA.
     - destruct (drops_bounds fc p); cbn [negb orb] in HT; [|exact HA].
       apply andb_true_iff in HT as [H1 H2]. destruct lo; [discriminate|]. destruct hi; [discriminate|]. exact HA.
     - apply orb_true_iff in HA as [HA|HA]; [rewrite HA; reflexivity|].
@@ -351,10 +360,12 @@ Proof. induction l as [|x r IH]; cbn [existsb map]; [reflexivity|]. rewrite IH. 
 
 Theorem gen_fc_invariant o rq : forall s p, place_free p s = true -> gen o true rq p s = gen o false rq p s.
 Proof.
-  induction s as [c| |lo hi| | | |vs|s IH|s lo hi IH|s IH|alts IH|props closed IH] using schema_ind';
+  induction s as [c| |c2|lo hi| | | |vs|s IH|s lo hi IH|s IH|alts IH|props closed IH] using schema_ind';
     intros p HF; cbn [gen place_free] in *; auto.
   - destruct p; cbn [drops_bounds is_pval andb negb orb] in *; auto.
     apply c_is_none_eq in HF. subst c. reflexivity.
+  - destruct p; cbn [drops_bounds is_pval andb negb orb] in *; auto.
+    apply c_is_none_eq in HF. subst c2. reflexivity.
   - destruct p; cbn [drops_bounds is_pval andb negb orb] in *; auto.
     apply andb_true_iff in HF as [H1 H2]. destruct lo; [discriminate|]. destruct hi; [discriminate|]. reflexivity.
   - rewrite (IH p HF). reflexivity.
@@ -391,10 +402,13 @@ Proof. rewrite map_map. reflexivity. Qed.
 
 Theorem gen_draft_invariant o fc rq : forall s p, gen o fc rq p (to_d6 s) = gen o fc rq p s.
 Proof.
-  induction s as [c| |lo hi| | | |vs|s IH|s lo hi IH|s IH|alts IH|props closed IH] using schema_ind';
+  induction s as [c| |c2|lo hi| | | |vs|s IH|s lo hi IH|s IH|alts IH|props closed IH] using schema_ind';
     intros p; cbn [gen to_d6]; auto.
   - destruct (drops_bounds fc p); [reflexivity|].
     unfold to_draft6. destruct (cnormalize c) as [c'|] eqn:E; [|rewrite E; reflexivity].
+    rewrite (cnormalize_idem _ _ E). reflexivity.
+  - destruct (drops_bounds fc p); [reflexivity|].
+    unfold to_draft6. destruct (cnormalize c2) as [c'|] eqn:E; [|rewrite E; reflexivity].
     rewrite (cnormalize_idem _ _ E). reflexivity.
   - rewrite IH. reflexivity.
   - rewrite IH. reflexivity.
